@@ -3,7 +3,8 @@ hierarchy.  Thin: decides name-comparison discipline, shared subtree
 closure, and that request flags only remove information."""
 import ast
 
-from ..model import AnalysisError, walk_no_nested, dotted, norm, eqsrc
+from ..model import (AnalysisError, walk_no_nested, dotted, norm, eqsrc,
+                     fold_const, NotConst)
 from .. import names
 
 EXPLANATION = (
@@ -456,8 +457,19 @@ def inheritance_marks(repo, rep, r6):
         'declare them', {'stores': [norm(s) for s in stores]})
     if stores:
         src = norm(stores[0].value)
+        # through locals that only rename the value (the result temporary
+        # of an inlined helper)
+        for _ in range(4):
+            nxt = [st for st in body if isinstance(st, ast.Assign) and
+                   norm(st.targets[0]) == src]
+            if len(nxt) == 1 and isinstance(nxt[0].value, ast.Name) and \
+                    norm(nxt[0].value) != src:
+                src = norm(nxt[0].value)
+            else:
+                break
         defs = [st for st in body if isinstance(st, ast.Assign) and
-                norm(st.targets[0]) == src]
+                norm(st.targets[0]) == src and
+                norm(st.value) != src]
         judge(len(defs) == 1 and isinstance(defs[0].value, ast.Call) and
               norm(defs[0].value.func).endswith('.copy'), ro,
               'inherit loop copy', 'copy', lp.lineno,
@@ -476,8 +488,14 @@ def inheritance_marks(repo, rep, r6):
         judge(co_ok, ro, 'inherit loop class_origin', 'class-origin',
               lp.lineno, 'an inherited element keeps the class_origin of '
               'the superclass element', {'marks': marks})
+        qvars = {norm(n.target) for n in ast.walk(lp)
+                 if isinstance(n, ast.For) and n is not lp and
+                 isinstance(n.target, ast.Name) and
+                 norm(n.iter).startswith(src + '.qualifiers')}
         qmarks = [st for st in body if isinstance(st, ast.Assign) and
-                  norm(st.targets[0]) == 'qualifier.propagated']
+                  isinstance(st.targets[0], ast.Attribute) and
+                  st.targets[0].attr == 'propagated' and
+                  norm(st.targets[0].value) in qvars]
         judge(len(qmarks) == 1 and norm(qmarks[0].value) == 'True', ro,
               'inherit loop qualifiers', 'propagated', lp.lineno,
               'the qualifiers of an inherited element are propagated')
@@ -958,11 +976,24 @@ def inherited_elements_marked_unconditionally(repo, rep):
         r13.sites += 1
         conds = []
         cur = mk
+        dead = False
         while cur in parent and parent[cur] is not f.node:
             up = parent[cur]
             if isinstance(up, ast.If):
-                conds.append(up.test)
+                # a test that an inlined call made constant (`if not True:`)
+                # is no condition: its live branch always runs, its dead
+                # branch never does
+                try:
+                    known = bool(fold_const(up.test))
+                except NotConst:
+                    known = None
+                if known is None:
+                    conds.append(up.test)
+                elif (cur in up.body) != known:
+                    dead = True
             cur = up
+        if dead:
+            continue
         bad = [t for t in conds
                if not (isinstance(t, ast.Compare) and len(t.ops) == 1 and
                        isinstance(t.ops[0], (ast.In, ast.NotIn))) and
